@@ -113,22 +113,17 @@ def refsOf (b : Block) : List Text :=
 /-- the names are acceptable (identifiers are) -/
 def NamesOk (b : Block) : Prop := ∀ n ∈ refsOf b, NameOk n
 
-def HasPct (b : Block) : Prop :=
-  '%' ∈ textOf b.singular ∨ ∃ pn pb, b.plural = some (pn, pb) ∧ '%' ∈ textOf pb
-
-/-- the shape on which the implementation (and hence the model) breaks the property — known finding
-    `C33:oldstyle:declared-unreferenced-vars:percent`: old style, variables declared in the tag, none referenced in
-    the text, a literal `%` in the text -/
-def Defect (cfg : Cfg) (b : Block) : Prop :=
-  cfg.newstyle = false ∧ refsOf b = [] ∧ headerVars b.header false ≠ [] ∧ HasPct b
-
-/-- the full-strength statement: whatever `parse` builds renders, under identity translations, to the oracle -/
+/-- the statement: whatever `parse` builds renders, under identity translations, to the oracle -/
 def RenderStatement (cfg : Cfg) (ae : Bool) (σ : Text → Val) (b : Block) : Prop :=
   ∀ node, parseTrans cfg b = .ok node →
     renderNode ae identityTr σ node = .ok (expected cfg.policyTrimmed ae σ b)
 
+/-- **C33 (block level, full strength)**: for every block that `parse` accepts — any header, context string, pluralize,
+    trimmed flag or policy — every assignment of values, both gettext styles and both autoescape modes, the node that
+    `_make_node` builds renders under identity translations to the block's source text (trimmed where trimming applies),
+    the form chosen by the count, variables substituted (escaped under autoescape unless markup) -/
 theorem render_eq_expected (cfg : Cfg) (ae : Bool) (σ : Text → Val) (b : Block)
-    (hnames : NamesOk b) (hnd : ¬ Defect cfg b) : RenderStatement cfg ae σ b := by
+    (hnames : NamesOk b) : RenderStatement cfg ae σ b := by
   intro node hok
   rw [expected_eq]
   rcases parseTrans_view cfg b node hok with ⟨hpl, rfl⟩ | ⟨pn, pb, k, ncn, hpl, hk, hncn, rfl⟩
@@ -139,9 +134,6 @@ theorem render_eq_expected (cfg : Cfg) (ae : Bool) (σ : Text → Val) (b : Bloc
     have := render_form cfg.newstyle ae σ b.singular (parseBlock b.singular).1 (headerVars b.header false)
       ((flag b.header).getD cfg.policyTrimmed) b.ctx none false (fun n hn => hn)
       (fun n hn => hnames n (by rw [hrefs]; exact hn)) (by simp)
-      (by
-        intro hns hr hv hp
-        exact hnd ⟨hns, by rw [hrefs]; exact hr, hv, Or.inl hp⟩)
     simpa using this
   · -- pluralize: the form is chosen by the count variable
     have hrefs : refsOf b = (parseBlock b.singular).1 ++ (parseBlock pb).1 := by unfold refsOf; rw [hpl]
@@ -154,29 +146,23 @@ theorem render_eq_expected (cfg : Cfg) (ae : Bool) (σ : Text → Val) (b : Bloc
       have := render_form cfg.newstyle ae σ b.singular ((parseBlock b.singular).1 ++ (parseBlock pb).1)
         (headerVars b.header false) ((flag b.header).getD cfg.policyTrimmed) b.ctx (some k) ncn
         (fun n hn => List.mem_append_left _ hn) hn' hncn'
-        (by
-          intro hns hr hv hp
-          exact hnd ⟨hns, by rw [hrefs]; exact hr, hv, Or.inl hp⟩)
       simpa [h1] using this
     · have hch : chosen σ b = pb := by unfold chosen; rw [hpl, hk]; simp [h1]
       rw [hch]
       have := render_form cfg.newstyle ae σ pb ((parseBlock b.singular).1 ++ (parseBlock pb).1)
         (headerVars b.header false) ((flag b.header).getD cfg.policyTrimmed) b.ctx (some k) ncn
         (fun n hn => List.mem_append_right _ hn) hn' hncn'
-        (by
-          intro hns hr hv hp
-          exact hnd ⟨hns, by rw [hrefs]; exact hr, hv, Or.inr ⟨pn, pb, hpl, hp⟩⟩)
       simp only at this ⊢
-      generalize (!(!((parseBlock b.singular).1 ++ (parseBlock pb).1).isEmpty) && !cfg.newstyle) = un at this ⊢
+      generalize ((keysOf (headerVars b.header false) ((parseBlock b.singular).1 ++ (parseBlock pb).1)).isEmpty &&
+        !cfg.newstyle) = un at this ⊢
       cases un <;> simpa [h1] using this
 
 /-- **new style and old style agree**: the two nodes built for the same block render the same text -/
 theorem styles_agree (pt ae : Bool) (σ : Text → Val) (b : Block) (nNew nOld : Node)
     (h1 : parseTrans ⟨true, pt⟩ b = .ok nNew) (h2 : parseTrans ⟨false, pt⟩ b = .ok nOld)
-    (hnames : NamesOk b) (hnd : ¬ Defect ⟨false, pt⟩ b) :
+    (hnames : NamesOk b) :
     renderNode ae identityTr σ nNew = renderNode ae identityTr σ nOld := by
-  have hn : ¬ Defect ⟨true, pt⟩ b := fun h => by simp [Defect] at h
-  rw [render_eq_expected ⟨true, pt⟩ ae σ b hnames hn nNew h1, render_eq_expected ⟨false, pt⟩ ae σ b hnames hnd nOld h2]
+  rw [render_eq_expected ⟨true, pt⟩ ae σ b hnames nNew h1, render_eq_expected ⟨false, pt⟩ ae σ b hnames nOld h2]
 
 /-- the documented rule for the count variable -/
 def countRule (b : Block) (pn : Option Text) : Option Text :=
@@ -188,13 +174,13 @@ def countRule (b : Block) (pn : Option Text) : Option Text :=
     declared in the tag, else the first one referenced in the singular text (`countName`, by definition); that is the
     variable `_make_node` passes as `n`; and the rendered text is the singular source iff its value `== 1` -/
 theorem plural_choice (cfg : Cfg) (ae : Bool) (σ : Text → Val) (b : Block) (pn : Option Text) (pb : Body) (node : Node)
-    (hpl : b.plural = some (pn, pb)) (hok : parseTrans cfg b = .ok node) (hnames : NamesOk b) (hnd : ¬ Defect cfg b) :
+    (hpl : b.plural = some (pn, pb)) (hok : parseTrans cfg b = .ok node) (hnames : NamesOk b) :
     ∃ k, countName b = some k ∧ node.countKey = some k ∧
       countName b = countRule b pn ∧
       renderNode ae identityTr σ node =
         .ok (fill (fun n => (σ n).show ae)
           (TS ((flag b.header).getD cfg.policyTrimmed) (syms (if (σ k).isOne then b.singular else pb)))) := by
-  have hr := render_eq_expected cfg ae σ b hnames hnd node hok
+  have hr := render_eq_expected cfg ae σ b hnames node hok
   rcases parseTrans_view cfg b node hok with ⟨hpl', _⟩ | ⟨pn', pb', k, ncn, hpl', hk, _, hnode⟩
   · rw [hpl] at hpl'; simp at hpl'
   · refine ⟨k, hk, by rw [hnode]; simp [makeNode], ?_, ?_⟩
@@ -242,8 +228,8 @@ theorem context_routing (cfg : Cfg) (b : Block) (node : Node) (hok : parseTrans 
   rcases parseTrans_view cfg b node hok with ⟨hpl, hnode⟩ | ⟨pn, pb, k, ncn, hpl, _, _, hnode⟩
   · rw [hnode, hpl]; cases b.ctx <;> simp [makeNode, Node.recorded]
   · rw [hnode, hpl]
-    cases b.ctx <;> cases cfg.newstyle <;>
-      cases (!((parseBlock b.singular).1 ++ (parseBlock pb).1).isEmpty) <;> simp [makeNode, Node.recorded]
+    generalize keysOf (headerVars b.header false) ((parseBlock b.singular).1 ++ (parseBlock pb).1) = ks
+    cases ks <;> cases b.ctx <;> cases cfg.newstyle <;> simp [makeNode, Node.recorded]
 
 /-- **autoescape**: only variable values are escaped — a plain string value is inserted as `escape(value)`, a markup
     value and an integer as they are, without autoescape everything raw; and the literal text of the block is never
@@ -310,40 +296,32 @@ theorem extraction_complete_trans (cfg : Cfg) (fns : List Text) (nodes : List TN
   rw [← toCall_recorded]
   exact extraction_complete cfg fns nodes calls h n.toCall hm (by simpa [Node.toCall] using hf n.func)
 
-/-! ## the known finding, exhibited by the model -/
+/-! ## the formerly failing shape (finding fixed in /repo by a1dc827) -/
 
-/-- `{% trans a=1 %}100%{% endtrans %}` -/
+/-- `{% trans a=1 %}100%{% endtrans %}`: a variable declared in the tag, none referenced, a literal `%` -/
 def witnessBlock : Block :=
   { ctx := none, header := [(['a'], true)], singular := [.data ['1','0','0','%']], plural := none }
 
-def witnessNode : Node :=
-  { func := .gettext, ctx := none, singular := ['1','0','0','%'], plural := none, countKey := none,
-    keys := [['a']], kwargs := [], modKeys := some [['a']], newstyle := false }
-
-private theorem witness_parse : parseTrans ⟨false, false⟩ witnessBlock = .ok witnessNode := by rfl
-
-/-- the excluded shape is not an artefact of the proof: on `{% trans a=1 %}100%{% endtrans %}` old style the node that
-    `parse` builds (un-doubled message *and* `% {'a': …}`) does not render to the source text — the `%` operator rejects
-    the message (Python: `ValueError: incomplete format`), while new style renders `100%` -/
-theorem oldstyle_unreferenced_percent_witness :
-    Defect ⟨false, false⟩ witnessBlock ∧
-    ¬ RenderStatement ⟨false, false⟩ false (fun _ => .int 1) witnessBlock ∧
-    RenderStatement ⟨true, false⟩ false (fun _ => .int 1) witnessBlock := by
-  refine ⟨⟨rfl, rfl, by simp [witnessBlock, headerVars], Or.inl (by simp [witnessBlock, textOf, subst])⟩, ?_, ?_⟩
-  · intro h
-    have := h witnessNode witness_parse
-    have e : renderNode false identityTr (fun _ => .int 1) witnessNode = .error .unsupported := by rfl
-    rw [e] at this; cases this
+/-- **regression guard**: old style, variables declared but not referenced, `%` in the text.  Before a1dc827 `_make_node`
+    un-doubled `%%` (no variable *referenced*) and still applied `% {'a': …}` (variables *declared*): `ValueError`.  Now the
+    message keeps `100%%`, is formatted with the dict, and the block renders its source text in both styles. -/
+theorem declared_unreferenced_percent_renders_source (ns ae : Bool) (σ : Text → Val) :
+    (∃ n, parseTrans ⟨ns, false⟩ witnessBlock = .ok n ∧ n.singular = ['1','0','0','%','%'] ∧
+      (ns = false → n.modKeys = some [['a']])) ∧
+    RenderStatement ⟨ns, false⟩ ae σ witnessBlock ∧
+    expected false ae σ witnessBlock = ['1','0','0','%'] := by
+  refine ⟨?_, ?_, rfl⟩
+  · cases ns
+    · exact ⟨_, rfl, rfl, fun _ => rfl⟩
+    · exact ⟨_, rfl, rfl, fun h => by simp at h⟩
   · apply render_eq_expected
-    · intro n hn; simp [refsOf, witnessBlock, parseBlock, Piece.names] at hn
-    · intro h; simp [Defect] at h
+    intro n hn; simp [refsOf, witnessBlock, parseBlock, Piece.names] at hn
 
-/-- the same defect without an exception: `{% trans a=1 %}50%(a)s{% endtrans %}` renders `501` (old style), the source
-    text is `50%(a)s` -/
+/-- the look-alike `{% trans a=1 %}50%(a)s{% endtrans %}` (rendered `501` before the fix) renders `50%(a)s` -/
 example : (match parseTrans ⟨false, false⟩
       { ctx := none, header := [(['a'], true)], singular := [.data ['5','0','%','(','a',')','s']], plural := none } with
     | .ok n => renderNode false identityTr (fun _ => .int 1) n
-    | .error _ => .error .unsupported) = .ok ['5','0','1'] := by rfl
+    | .error _ => .error .unsupported) = .ok ['5','0','%','(','a',')','s'] := by rfl
 
 /-! ## non-vacuity: concrete instances of the hypotheses -/
 
@@ -353,13 +331,12 @@ def exBlock : Block :=
     singular := [.var ['n'], .data [' ','f','i','l','e',' ','1','0','0','%']],
     plural := some (none, [.var ['n'], .data [' ','f','i','l','e','s',' ','<','b','>'], .var ['u','s','e','r'], .data ['<','/','b','>']]) }
 
-example : NamesOk exBlock ∧ ¬ Defect ⟨false, false⟩ exBlock ∧ (∃ n, parseTrans ⟨false, false⟩ exBlock = .ok n) ∧
+example : NamesOk exBlock ∧ (∃ n, parseTrans ⟨false, false⟩ exBlock = .ok n) ∧
     countName exBlock = some ['n'] := by
-  refine ⟨?_, ?_, ⟨_, rfl⟩, rfl⟩
-  · intro n hn
-    simp [refsOf, exBlock, parseBlock, Piece.names] at hn
-    rcases hn with rfl | rfl | rfl <;> exact ⟨by decide, by decide, by decide⟩
-  · intro h; exact absurd h.2.1 (by simp [refsOf, exBlock, parseBlock, Piece.names])
+  refine ⟨?_, ⟨_, rfl⟩, rfl⟩
+  intro n hn
+  simp [refsOf, exBlock, parseBlock, Piece.names] at hn
+  rcases hn with rfl | rfl | rfl <;> exact ⟨by decide, by decide, by decide⟩
 
 /-- what the theorem says on it: count 2, autoescape on, `user = "<x>"` → plural source with the value escaped -/
 example : (match parseTrans ⟨false, false⟩ exBlock with
